@@ -86,7 +86,12 @@ size_t ZSTDMT_compressStream_generic(ZSTDMT_CCtx* mtctx,
                                      ZSTD_inBuffer* input,
                                      ZSTD_EndDirective endOp);
 
- /*! ZSTDMT_toFlushNow()
+ /*! ZSTDMT_waitForAllJobsCompleted() :
+ *  Blocks until every job already started has completed.
+ *  Jobs of an abandoned frame keep reading the dictionary and the prefix they were started with. */
+void ZSTDMT_waitForAllJobsCompleted(ZSTDMT_CCtx* mtctx);
+
+/*! ZSTDMT_toFlushNow()
   *  Tell how many bytes are ready to be flushed immediately.
   *  Probe the oldest active job (not yet entirely flushed) and check its output buffer.
   *  If return 0, it means there is no active job,
